@@ -90,9 +90,9 @@ def check(ctx):
                   f"{spec} returns `{ret}` regardless of commit",
                   detail_bad=f"returns {[norm(r) for r in rets]}", key=f"COMMIT|{spec}|return")
 
-    _parsers_readonly(ctx)
-    _commit_assigns(ctx)
-    _fresh(ctx)
+    ctx.attempt(_parsers_readonly)
+    ctx.attempt(_commit_assigns)
+    ctx.attempt(_fresh)
 
 
 def _parsers_readonly(ctx):
